@@ -30,12 +30,19 @@ class VtOrd5(callbacks.Plugin):
     callBefore = tuple(getattr(_cfg(), 'before', {}).get('VtOrd5', ())) if _cfg() is not None else ()
     callAfter = list(getattr(_cfg(), 'after', {}).get('VtOrd5', ())) if _cfg() is not None else []
 
+    def callPrecedence(self, irc):
+        c = _cfg()
+        if c is not None and 'VtOrd5' in getattr(c, 'prec_raises', ()):
+            # (firewalled: the dispatcher then treats this plugin as one without constraints)
+            raise RuntimeError('vt_c20: callPrecedence of VtOrd5 raises, see http://example.org/caf%c3%a9%20%bar?x=%s')
+        return super().callPrecedence(irc)
+
     def die(self):
         c = _cfg()
         if c is not None:
             c.log.append(('die', 'VtOrd5'))
             if 'VtOrd5' in c.die_raises:
-                raise RuntimeError('vt_c20: die of VtOrd5 made to raise')
+                raise RuntimeError('vt_c20: die of VtOrd5 made to raise, see http://example.org/caf%c3%a9%20%bar?x=%s')
         super().die()
 
     def __call__(self, irc, msg):
@@ -43,6 +50,10 @@ class VtOrd5(callbacks.Plugin):
         if c is not None and msg.command == 'PRIVMSG' and msg.args[1].startswith('vtorder'):
             c.seen.append('VtOrd5')
         return super().__call__(irc, msg)
+
+    def vtsh2(self, x, y=None):
+        # a helper, NOT a command (wrong signature); the plugin VtOrd4 has a command of the same name
+        return x
 
     def ord5(self, irc, msg, args):
         """takes no arguments
